@@ -127,7 +127,12 @@ def symmetry(ctx, rule):
             if is_e(r, "std::option::Option") and r[2] == "Some":
                 pair = r[3][0]
                 if pair[0] == "t" and len(pair[1]) == 2:
-                    res.add(("some", pair[1][0], pair[1][1]))
+                    x, y = pair[1]
+                    if is_e(x, kt.VAL) and is_e(y, kt.VAL) and x[2] != y[2]:
+                        # the kinds still differ after coercion: equality is false and ordering an error whatever the payloads are
+                        res.add(("mismatch",))
+                    else:
+                        res.add(("some", x, y))
                 else:
                     res.add(("some?", r))
             elif is_e(r, "std::option::Option"):
